@@ -181,6 +181,83 @@ void h_range_correlated(void)
     RANGE_POST("correlated standard (sigma grid)", rc == -1, fmin, fmax, sfmin, sfmax);
     free(vnp); free(vcp);
 }
+
+/*
+ * ---- the caller: _vnacal_new_get_parameter, the way every vnacal_new_add_*
+ * call looks a handle up.  When the calibration frequencies are already
+ * known, the range clauses hold for the handle given - a vector parameter
+ * (GP_KIND 0), a correlated parameter whose sigma grid restricts it
+ * (GP_KIND 1), and a correlated parameter over a vector guess that is the one
+ * out of range (GP_KIND 2).  A refused look-up registers nothing.
+ */
+#ifndef GP_KIND
+#define GP_KIND 0
+#endif
+void h_range_get_parameter(void)
+{
+    IN(double, fmin);
+    IN(double, fmax);
+    IN(double, pfmin);
+    IN(double, pfmax);
+    double fv[2], cfv[2], wide[2] = { 0.0, 1.7976931348623157e308 }, sigma[2] = { 0.1, 0.1 };
+    double complex gv[2] = { 0.0, 0.0 };
+    vnacal_t *vcp = mk_vcp_min(1);
+    vnacal_parameter_t *slots[8] = { 0 };
+    vnacal_parameter_t *guess, corr;
+    vnacal_new_parameter_t *node;
+    vnacal_new_t *vnp;
+    int handle;
+
+    ASSUME(RANGE_PRE(fmin, fmax));
+    ASSUME(pfmin == pfmin && pfmax == pfmax && pfmin >= 0.0 && pfmin <= pfmax);
+    fv[0] = pfmin; fv[1] = pfmax;
+    cfv[0] = fmin; cfv[1] = fmax;
+    vcp->vc_parameter_collection.vprmc_vector = slots;
+    vcp->vc_parameter_collection.vprmc_allocation = 8;
+    vcp->vc_parameter_collection.vprmc_count = 2;
+    vcp->vc_parameter_collection.vprmc_first_free = 5;
+#if GP_KIND == 0
+    guess = mk_vector_param(vcp, 3, 2, fv, gv);
+    slots[3] = guess;
+    handle = 3;
+    (void)corr; (void)sigma; (void)wide;
+#else
+#if GP_KIND == 1	/* guess valid everywhere, sigma grid symbolic */
+    guess = mk_vector_param(vcp, 3, 2, wide, gv);
+#else			/* guess symbolic, sigma grid valid everywhere */
+    guess = mk_vector_param(vcp, 3, 2, fv, gv);
+#endif
+    guess->vpmr_hold_count = 2;
+    (void)memset((void *)&corr, 0, sizeof(corr));
+    corr.vpmr_type = VNACAL_CORRELATED;
+    corr.vpmr_hold_count = 1;
+    corr.vpmr_index = 4;
+    corr.vpmr_vcp = vcp;
+    corr.vpmr_other = guess;
+    corr.vpmr_sigma_frequencies = 2;
+    corr.vpmr_sigma_frequency_vector = (GP_KIND == 1) ? fv : wide;
+    corr.vpmr_sigma_vector = sigma;
+    slots[3] = guess;
+    slots[4] = &corr;
+    handle = 4;
+#endif
+    vnp = mk_vnp_min(vcp, VNACAL_T8, 2, 2, 2, cfv);
+    ASSUME(_vnacal_new_init_parameter_hash("h", &vnp->vn_parameter_hash) == 0);
+    ghost_err_reset();
+    node = _vnacal_new_get_parameter("h", vnp, handle);
+    REACH("_vnacal_new_get_parameter returned");
+    RANGE_POST("a standard added after the frequencies were given", node == NULL, fmin, fmax, pfmin, pfmax);
+    if (node == NULL) {
+	REACH("look-up refused");
+	CHECK(ghost_err_calls == 1 && ghost_err_category == VNAERR_USAGE &&
+		errno == EINVAL, "refusal reported once as usage error");
+    } else {
+	REACH("look-up accepted");
+	CHECK(ghost_err_calls == 0, "acceptance is silent");
+	CHECK(node->vnpr_parameter == slots[handle], "the node is the one of the handle given");
+    }
+    /* (nodes and hash table are left to the end of the run: no leak claim here) */
+}
 #endif
 
 #ifdef H_M_ERROR
